@@ -67,6 +67,7 @@ class Gen:
             kinds = [k for k in ("bad_data", "interrupt", "flaky") if r.random() < 0.7]
             self.cfg["faults"] = kinds or ["interrupt"]
         self.p0 = 1
+        self.after_mutate = None
         self.last_changer = None
         self.n_constructed = 0
 
@@ -430,6 +431,17 @@ class Gen:
     def step(self, sim):
         r = self.rng
         ncl = len(sim.clients)
+        if self.after_mutate is not None:
+            # right after the user overwrote a buffer in place: the clients trained on it
+            # refit on the very same object (and are then compared as usual)
+            d, todo = self.after_mutate
+            todo = [j for j in todo if j < ncl]
+            if todo and r.random() < 0.85:
+                j = todo.pop(0)
+                self.after_mutate = (d, todo) if todo else None
+                self.last_changer = j
+                return {"op": "fit", "c": j, "d": d}
+            self.after_mutate = None
         # who moves: prefer a client sharing state with the last state changer
         i = None
         if self.last_changer is not None and self.last_changer < ncl and r.random() < 0.45:
@@ -449,6 +461,8 @@ class Gen:
             d = self.choice(fit_ds) if fit_ds and r.random() < 0.8 else self.choice(used)["id"]
             spec = sim.ds_spec[d]
             self.last_changer = None
+            obj = sim.ds_obj[d]
+            self.after_mutate = (d, [j for j, c in enumerate(sim.clients) if isinstance(c.lin, list) and any(ch is obj for ch, _ in c.lin)])
             return {"op": "mutate", "d": d, "values": values_to_json(self.values(len(spec["values"]), len(spec["columns"]), spec.get("dtype", "float64")))}
         if cl.is_det:
             if fitted:
